@@ -4,7 +4,10 @@
   The state is a stack of views; a case builds leaves, applies adaptors to the top of the stack
   (or to the top `n` views for stack / chain) and asks questions about the top view.
 
-    @ case                              fresh empty stack                       → ok
+    @ case [data=zeros|equal|pairs]     fresh empty stack (data=: what the leaves hold on the Rust
+                                        side — all zeros, one value everywhere, small values equal in
+                                        neighbouring pairs; cells are then recognised by the address
+                                        of the reference handed out.  Nothing here depends on it.)  → ok
     leaf <id> <shape>                   push Tensor::from(shape, ids)            → ok shape=<shape> | reject
     matrix <id> <rows> <cols> <r>,<c>   push TensorRefMatrix over a Matrix       → ok shape=<shape> | reject
     matrixof <r>,<c> [ops=<op;op;…>]    TensorRefMatrix::from/with_names(<ops>(MatrixRefTensor::from(top))), top 2-dimensional;
@@ -33,6 +36,9 @@
                                         `Display for RecordTensor`)              → ok shape=<shape>
     display                             every element in row-major order, as `Display` of a
                                         TensorView / RecordTensor prints them    → shape=<shape> cells=<leaf:offset …>
+    first <k>                           TensorView::map / map_mut / map_with_index / map_mut_with_index /
+                                        iter with a closure that panics on call k (counted from 0):
+                                        the cells it was shown before             → cells=<leaf:offset …>
     sources                             source() / source_ref() / sources() / sources_ref() of the
                                         adaptor on top: every inner view         → shape=<shape> cells=<…> | shape=…
     length_of <name>                    TensorView::length_of / last_index_of    → length=<n>|none last=<n>|none
@@ -323,6 +329,16 @@ def step (s : State) (toks : List String) : State × String :=
     match s.stack with
     | v :: _ => if prod (lens v.shape) > 64 then (s, "skip") else (s, describe v 64)
     | [] => (s, "skip")
+  | "first" :: kS :: _ =>
+    match s.stack, kS.toNat? with
+    | v :: _, some k =>
+      if prod (lens v.shape) > 4096 then (s, "skip") else
+      let idxs := (allIndexes (lens v.shape)).take k
+      let spec := " ".intercalate (idxs.map fun idx => showCellOpt (v.specGet idx))
+      let model := " ".intercalate (idxs.map fun idx => showOutcome showCellOpt (v.get idx))
+      (s, "cells=" ++ (if spec = model then spec else s!"{spec} MODEL-SPEC-DISAGREE {model}"))
+    | [], _ => (s, "skip")
+    | _, none => (s, "bad-op")
   | "sources" :: _ =>
     match s.stack with
     | v :: _ =>
